@@ -29,7 +29,7 @@ fn run_case(_kind: &str, idx: u64, rng: &mut Rng, mon: &mut Mon, _tier: Tier) {
     let mut to = [0.0; 6];
     let mut classes = vec![];
     for j in 0..6 {
-        let (f, t, c) = match rng.usize(7) {
+        let (f, t, c) = match rng.usize(8) {
             0 => {
                 let a = rng.range(-2.0 * PI, 2.0 * PI);
                 let b = rng.range(-2.0 * PI, 2.0 * PI);
@@ -50,6 +50,17 @@ fn run_case(_kind: &str, idx: u64, rng: &mut Rng, mon: &mut Mon, _tier: Tier) {
                 (v, v, "from==to")
             }
             5 => (rng.range(0.05, 2.0 * PI), 0.0, "wrap_to_zero"),
+            // arcs of positive but tiny width: a few ulps up to a nanoradian, plain or wrapping through 0
+            7 => {
+                let w = if rng.bool(0.4) { rng.int(1, 6) as f64 * f64::EPSILON * 4.0 } else { rng.logu(1e-15, 1e-9) };
+                if rng.bool(0.6) {
+                    let f = rng.range(-2.0 * PI, 2.0 * PI);
+                    let t = f + w;
+                    if t > f { (f, t, "tiny_arc") } else { (f, f + 1e-9, "tiny_arc") }
+                } else {
+                    (2.0 * PI - w, w * rng.f(), "tiny_arc_wrapping")
+                }
+            }
             _ => (*rng.pick(&[-2.0 * PI, -PI, 0.0]), *rng.pick(&[PI / 2.0, PI - 0.01, 2.0 * PI]), "from<to_edges"),
         };
         // exclude from>to with from==to mod 2pi
